@@ -92,8 +92,8 @@ def num_py(v):
 
 # ------------------------------------------------------------------ building the operands
 DTYPES = {"float": np.float64, "int": np.int64, "complex": np.complex128, "float32": np.float32,
-          "complex64": np.complex64, "int32": np.int32, "int16": np.int16, "uint8": np.uint8, "uint16": np.uint16}
-INT_KINDS = ("int", "int32", "int16", "uint8", "uint16")
+          "complex64": np.complex64, "int32": np.int32, "int16": np.int16, "uint8": np.uint8, "uint16": np.uint16, "int64": np.int64}
+INT_KINDS = ("int", "int32", "int16", "uint8", "uint16", "int64")
 UNSIGNED = ("uint8", "uint16")
 LOWPREC = ("float32", "complex64")
 KNOWN_RSUB = "C03-rsub-unsigned-wraps"
@@ -622,7 +622,7 @@ def gen_field(rng, mesh_i, meshes, nv, regime, dtype=None, plain=False):
         elif nv == 1 and vdims is not None and r < 0.6:
             vmap = {vdims[0]: rng.choice(dims)}
     return dict(mesh=mesh_i, nvdim=nv, dtype=dtype, vals=vals, valid=valid, vdims=vdims, vmap=vmap,
-                unit=rng.choice([None, None, "A/m"]))
+                unit=rng.choice([None, None, "A/m", ""]))
 
 
 class Gen:
@@ -768,10 +768,13 @@ def contains_op(e, names):
 
 
 def expr_case(rng, tier, kind="expr"):
-    regime = rng.choice(["exact", "exact", "exact", "scale"])
+    regime = rng.choice(["exact"] * 6 + ["scale"] * 2 + ["pow2:-200", "pow2:300", "pow2:-60", "pow2:100"][:4 if True else 0]
+                        if rng.random() < 0.5 else ["exact", "exact", "exact", "scale"])
     meshes = [gen_mesh(rng, tier)]
     gen = Gen(rng, tier, regime, meshes, allow_cplx=rng.random() < 0.35)
     depth = rng.choice([1, 2, 2, 3, 3]) if tier == "quick" else rng.choice([1, 2, 3, 3, 4, 5])
+    if regime.startswith("pow2"):
+        depth = min(depth, 2)
     nv = rng.choice([1, 1, 2, 3, 3, 4])
     e = gen.fexpr(depth, nv)
     if e[0] == "leaf":
@@ -932,19 +935,121 @@ def malformed_case(rng, tier):
     return dict(kind="malformed", regime="exact", meshes=meshes, fields=gen.fields, expr=e, expect="free")
 
 
+def typed_const(rng, kind, k, ncell, unsigned_ok=True):
+    """numbers / vectors / per-cell arrays of assorted Python and numpy types"""
+    ints = ["pyint", "int32", "int64", "uint8", "uint16"] if unsigned_ok else ["pyint", "int32", "int64"]
+    ct = rng.choice(ints + ["float32", None, "complex64"])
+
+    def val():
+        if ct in ints:
+            return [g.qs(rng.randint(1, 9)), "0/1"]
+        re = F(rng.randint(-24, 24) or 3, rng.choice([1, 2, 4]))
+        im = F(rng.randint(-8, 8) or 1, 2) if ct == "complex64" else F(0)
+        return [g.qs(re), g.qs(im)]
+    np_flag = ct not in ("pyint", None) or rng.random() < 0.4
+    if kind == "num":
+        return ["num", np_flag, val(), ct]
+    if kind == "vec":
+        return ["vec", np_flag, [val() for _ in range(k)], rng.choice(["tuple", "list"]), ct]
+    return ["arr", k, [val() for _ in range(ncell * k)], None if ct == "pyint" else ct]
+
+
+def typed_case(rng, tier):
+    """integer (incl. unsigned, near the overflow limit of squares) / float32 / complex64 fields against
+    typed constants and against each other"""
+    meshes = [gen_mesh(rng, tier)]
+    ncell = math.prod(meshes[0]["n"])
+    dta = rng.choice(["uint8", "uint16", "int16", "int32", "int", "float32", "complex64", "float", "int"])
+    gen = Gen(rng, tier, "limits", meshes, allow_cplx=False)
+    nv = rng.choice([1, 2, 3])
+    gen.fields.append(gen_field(rng, 0, meshes, nv, "limits", dta))
+    a = ["leaf", 0]
+    r = rng.random()
+    tags = []
+    if r < 0.2:
+        e = ["un", rng.choice(["abs", "pos", "real", "conj"]) if dta in UNSIGNED else
+             rng.choice(["abs", "neg", "pos", "real", "imag", "conj"]), None, a]
+        if rng.random() < 0.5:
+            e = ["un", "uf1", "square", a]
+    else:
+        op = rng.choice(["add", "mul", "mul", "div", "sub"])
+        kind = rng.choice(["num", "vec", "arr", "leaf", "leaf"])
+        if kind == "leaf":
+            dtb = rng.choice([dta, dta, "float", "int32", "float32", "uint8", "complex64"])
+            if op == "sub" and (dta in UNSIGNED or dtb in UNSIGNED):
+                op = "add"
+            kb = nv if rng.random() < 0.7 else 1
+            gen.fields.append(gen_field(rng, 0, meshes, kb, "limits", dtb))
+            b = ["leaf", 1]
+        else:
+            kb = 1 if kind == "num" else nv
+            b = typed_const(rng, kind, kb, ncell, unsigned_ok=(op != "sub"))
+            if op == "sub" and dta in UNSIGNED and ctype_of(b) in ("pyint", "int32", "int64"):
+                b = typed_const(rng, kind, kb, ncell, unsigned_ok=False)
+                b = ["num", False, [g.qs(F(5, 2)), "0/1"]] if kind == "num" else b
+        e = ["bin", op, None, a, b] if rng.random() < 0.55 else ["bin", op, None, b, a]
+        if rng.random() < 0.2 and op in ("add", "mul") and not (is_const(b) and b[0] == "vec" and not b[1]):
+            name = {"add": "add", "mul": "multiply"}[op]
+            e = ["bin", "uf2", name, e[3], e[4]]
+    return dict(kind="typed", regime="limits", meshes=meshes, fields=gen.fields, expr=e, expect="free", dta=dta)
+
+
+def reuse_case(rng, tier):
+    """operands that are used first (derived quantities, the expression itself), then changed in place
+    through public calls, then used again; the model sees the state they report afterwards"""
+    c = expr_case(rng, "quick", kind="reuse")
+    c["own_mesh"] = True
+    nd = len(c["meshes"][0]["n"])
+    steps = []
+    uniform = True
+    for _ in range(rng.choice([1, 1, 2, 3])):
+        op = rng.choice(["translate", "scale", "region_translate", "region_scale", "rot", "write", "write",
+                         "imul", "setvalid", "validitem"])
+        which = "all" if rng.random() < 0.7 else rng.randrange(5)
+        st = dict(op=op, which=which, salt=rng.randrange(1000))
+        if op in ("translate", "region_translate"):
+            st["v"] = [g.qs(F(rng.randint(-12, 12), rng.choice([1, 2]))) for _ in range(nd)]
+        elif op in ("scale", "region_scale"):
+            st["peraxis"] = rng.random() < 0.5
+            st["v"] = [g.qs(F(rng.choice([2, 3, -1, -2, 1]), rng.choice([1, 2]))) for _ in range(nd)]
+        elif op == "rot":
+            if nd < 2:
+                continue
+            a, b = rng.sample(range(nd), 2)
+            st.update(ax=[a, b], k=rng.choice([1, 1, 3, -1, 2]))
+            st["which"] = "all"
+        elif op == "write":
+            st["vals"] = [rnum(rng, "exact") for _ in range(7)]
+            st["stride"] = rng.choice([1, 2, 3])
+        elif op == "imul":
+            st["c"] = rng.choice([2, -1, 3])
+        if st["which"] != "all" and op in ("translate", "scale", "region_translate", "region_scale"):
+            uniform = False
+        steps.append(st)
+    c["steps"] = steps
+    c["expect"] = "accept" if uniform and c["expect"] == "accept" else "free"
+    if any(s_["op"] == "rot" for s_ in steps):
+        c["expect"] = "free"         # rotating vector fields needs a complete mapping
+    return c
+
+
 def generate(rng, tier):
     cases = []
     q = tier == "quick"
-    for _ in range(420 if q else 5000):
+    for _ in range(380 if q else 4200):
         cases.append(expr_case(rng, tier))
-    for _ in range(140 if q else 1200):
+    for _ in range(130 if q else 1100):
         cases.append(commute_case(rng, tier))
-    for _ in range(40 if q else 300):
+    for _ in range(30 if q else 250):
         cases.append(stackcomp_case(rng, tier))
-    for _ in range(150 if q else 1200):
+    for _ in range(130 if q else 1100):
         cases.append(reject_case(rng, tier))
-    for _ in range(90 if q else 700):
+    for _ in range(70 if q else 600):
         cases.append(malformed_case(rng, tier))
+    for _ in range(130 if q else 1100):
+        cases.append(typed_case(rng, tier))
+    for _ in range(130 if q else 1100):
+        cases.append(reuse_case(rng, tier))
     return cases
 
 
@@ -1025,6 +1130,20 @@ def same_result(r1, r2):
     return (r1.nvdim == r2.nvdim and r1.mesh == r2.mesh and np.array_equal(r1.valid, r2.valid)
             and r1.array.shape == r2.array.shape and str(r1.array.dtype) == str(r2.array.dtype)
             and np.array_equal(r1.array, r2.array, equal_nan=True) and vec_labels(r1) == vec_labels(r2))
+
+
+def rsub_unsigned(e, leaves):
+    if e[0] == "un":
+        return rsub_unsigned(e[3], leaves)
+    if e[0] != "bin":
+        return False
+    if e[1] == "sub" and is_const(e[3]) and not e[3][1] and e[3][0] != "arr":
+        x = e[4]
+        while x[0] == "un" and x[1] == "pos":
+            x = x[3]
+        if x[0] == "leaf" and leaves[x[1]].array.dtype.kind == "u":
+            return True
+    return rsub_unsigned(e[3], leaves) or rsub_unsigned(e[4], leaves)
 
 
 def root_alg(e):
@@ -1224,7 +1343,12 @@ def run_case(c):
             rec["oracle"].append("valid-expression-rejected")
     # --- Gallina record
     coq = None
-    if ref is not None or st != "ok":
+    if rsub_unsigned(e, leaves):
+        # known: number / tuple / list minus an unsigned field is computed as -self + other and wraps
+        rec["tags"].append(KNOWN_RSUB)
+        if st == "ok" and "array-not-cellwise" not in rec["oracle"]:
+            pass
+    elif ref is not None or st != "ok":
         if ref is not None:
             exact = ctx.all_exact and ctx.keys_exact
             tol = F(0) if exact else F(ctx.rel) * F(ctx.scale)
